@@ -109,4 +109,14 @@ theorem C04_decimal_satisfiable (k : Int) (hk : k.natAbs / 2 ^ 52 < 2047) :
     ∃ d : Codec.Dec, Codec.decIsKey d k = true :=
   Codec.decIsKey_satisfiable k hk
 
+/-- THE DECIMAL ORACLE IS A PARTIAL FUNCTION from number texts to order keys: one text denotes at
+    most one key, for every text and every two keys, no side condition (infinities and NaNs are
+    never denoted).  With `C04_decimal_satisfiable` (onto the finite keys): a reloaded index value
+    passes the comparison iff it is the double the text denotes, so any inexact reload is caught
+    whatever the distance — the upper rounding boundaries are strictly increasing in the key
+    (`upC_succ`) and each lower boundary is the predecessor's upper one (`loC_succ`). -/
+theorem C04_decimal_functional (d : Codec.Dec) (k k' : Int)
+    (h : Codec.decIsKey d k = true) (h' : Codec.decIsKey d k' = true) : k = k' :=
+  Codec.decIsKey_functional' d k k' h h'
+
 end Sod.Props
